@@ -333,6 +333,8 @@ def base_histories(kind):
     hs.append(("two-acq", Hist(kind, '{"k":[1,2]}').set(u1).start().append(sz(8)).append(sz(0, 24)).stop()
                .set(u2).start().append(sz(8)).close()))
     hs.append(("misuse", Hist(kind).start().set(u1).start().start().append(sz(8)).stop().stop().append(sz(8)).close()))
+    # a start in the middle of an acquisition is refused and must leave the file being written alone
+    hs.append(("start-while-running", Hist(kind).set(u1).start().append(sz(8)).start().append(sz(16, 3)).stop().close()))
     hs.append(("bad-meta", Hist(kind, "{x").set(u1).start().set(u1, "-").start().append(sz(8)).close()))
     return hs
 
